@@ -98,7 +98,7 @@ CONTRACTS.update({
         requires={'is-a-variable-of-this-problem': 'des_var in self.all_des_vars',
                   'domain-set': 'implies(des_var._opts is None, des_var._bounds is not None)',
                   'each-choice-has-at-most-one-variable': 'forall(a, 0, len(self._sel_choice_idx_map), forall(b, 0, len(self._sel_choice_idx_map), implies(a != b, self._sel_choice_idx_map[a] != self._sel_choice_idx_map[b])))'},
-        funcs={'MASK': (['Dict[Int,Int]'], 'Ref')},     # the analyzer's answer (uninterpreted; same symbol as in the callee's contract)
+        funcs={'MASK': (['Dict[Int,Int]'], 'Ref'), 'MASKOF': (['Dict[Int,Real]', 'List[Int]'], 'Ref')},     # the analyzer's answer (uninterpreted; same symbols as in the callee's contract)
         # the mask refresh is checked against the contract of the real `_update_comb_fixed_mask` (below): its
         # precondition (one variable per selection choice, set up by `_get_des_vars`) is a representation invariant
         calls={'self._update_comb_fixed_mask': 'adsg_core/optimization/graph_processor.py:GraphProcessor._update_comb_fixed_mask',
@@ -113,6 +113,7 @@ CONTRACTS.update({
         ensures={
             'fixed-value-recorded': ('property', 'implies(value is not None, self.all_des_vars.index(des_var) in self._fixed_values and self._fixed_values[self.all_des_vars.index(des_var)] == value)'),
             'unfix-removes-entry': ('property', 'implies(value is None, not (self.all_des_vars.index(des_var) in self._fixed_values))'),
+            'mask-refreshed-for-the-new-fixed-values': ('property', 'self._comb_fixed_mask == MASKOF(self._fixed_values, self._sel_choice_idx_map)'),
             'other-entries-unchanged': ('property', "forall('j:Int', implies(j != self.all_des_vars.index(des_var), (j in self._fixed_values) == (j in old(self._fixed_values)) and self._fixed_values[j] == old(self._fixed_values)[j]))"),
         },
         modifies=['self._fixed_values', 'self._comb_fixed_mask'],
@@ -157,12 +158,17 @@ def _domain_fix(n):
         if rng.random() < 0.5:
             a = rng.randint(0, len(dvs))
             gp._conn_choice_data_map[object()] = (None, None, None, a, rng.randint(a, len(dvs)), None)
-        gp._comb_fixed_mask = None
-        gp._update_comb_fixed_mask = lambda: None
+        gp._comb_fixed_mask = ('mask', 'left over from an earlier fix')
         gp._sel_choice_idx_map = list(range(rng.randint(0, len(dvs))))
+
+        class An:
+            def get_available_combinations_mask(self, fixed):
+                return ('mask', frozenset(fixed.items()))
+        gp._hierarchy_analyzer = An()
+        gp._update_comb_fixed_mask = (lambda gp=gp: GraphProcessor._update_comb_fixed_mask(gp))
         k = rng.randrange(len(dvs))
         value = rng.choice([None, -1, 0, 1, 2, 3, 0.5, 5.0])
-        yield ({'self': gp, 'des_var': dvs[k], 'value': value},
+        yield ({'self': gp, 'des_var': dvs[k], 'value': value, 'MASKOF': (lambda fv, m: ('mask', frozenset((m[v], int(x)) for v, x in fv.items() if 0 <= v < len(m))))},
                (lambda gp=gp, dv=dvs[k], value=value: GraphProcessor.fix_des_var(gp, dv, value)), {'Ref': list(gp._conn_choice_data_map), 'Int': list(range(-1, 6))},
                f'fix_des_var(var {k} of {[str(d) for d in dvs]}, {value}) fixed={gp._fixed_values} conn={[(v[3], v[4]) for v in gp._conn_choice_data_map.values()]}')
 
@@ -174,9 +180,10 @@ CONTRACTS[GP + 'GraphProcessor.free_des_var'] = dict(
     properties=['C15'],
     types={'self': 'Ref[GraphProcessor]', 'des_var': 'Ref[DesVar]'},
     requires=dict(CONTRACTS[GP + 'GraphProcessor.fix_des_var']['requires']),
-    funcs={'MASK': (['Dict[Int,Int]'], 'Ref')},
+    funcs={'MASK': (['Dict[Int,Int]'], 'Ref'), 'MASKOF': (['Dict[Int,Real]', 'List[Int]'], 'Ref')},
     calls={'self.fix_des_var': GP + 'GraphProcessor.fix_des_var'},
     ensures={
+        'mask-refreshed-for-the-remaining-fixed-values': ('property', 'self._comb_fixed_mask == MASKOF(self._fixed_values, self._sel_choice_idx_map)'),
         'entry-removed': ('property', 'not (self.all_des_vars.index(des_var) in self._fixed_values)'),
         'other-entries-unchanged': ('property', "forall('j:Int', implies(j != self.all_des_vars.index(des_var), (j in self._fixed_values) == (j in old(self._fixed_values)) and implies(j in self._fixed_values, self._fixed_values[j] == old(self._fixed_values)[j])))"),
         'free-of-a-free-variable-changes-nothing': ('property', "implies(not (self.all_des_vars.index(des_var) in old(self._fixed_values)), forall('j:Int', (j in self._fixed_values) == (j in old(self._fixed_values))))"),
@@ -190,7 +197,7 @@ def _domain_free(n):
     for env, _call, uni, desc in _domain_fix(n):
         gp, dv = env['self'], env['des_var']
         gp.fix_des_var = (lambda d, v, gp=gp: GraphProcessor.fix_des_var(gp, d, v))
-        yield ({'self': gp, 'des_var': dv}, (lambda gp=gp, dv=dv: GraphProcessor.free_des_var(gp, dv)), uni, 'free_des_var: ' + desc)
+        yield ({'self': gp, 'des_var': dv, 'MASKOF': env['MASKOF']}, (lambda gp=gp, dv=dv: GraphProcessor.free_des_var(gp, dv)), uni, 'free_des_var: ' + desc)
 
 
 DOMAIN[GP + 'GraphProcessor.free_des_var'] = _domain_free
@@ -207,7 +214,9 @@ CONTRACTS[GP + 'GraphProcessor._update_comb_fixed_mask'] = dict(
         # the fixed choices are keyed by selection-choice index and carry the fixed option index
         'self._hierarchy_analyzer.get_available_combinations_mask': dict(
             params=['fixed_comb_idx'], types={'fixed_comb_idx': 'Dict[Int,Int]'}, returns='Ref', modifies=[],
-            ensures=['result == MASK(fixed_comb_idx)'],
+            # MASKOF(fixed values, variable->choice map): the analyzer's answer is a function of the *content* of the
+            # dict it is given, and the two preconditions below determine that content from the fixed values
+            ensures=['result == MASK(fixed_comb_idx)', 'result == MASKOF(self._fixed_values, self._sel_choice_idx_map)'],
             requires={
                 'every-fixed-selection-variable-passed-by-choice-index':
                     'forall(v, 0, len(self._sel_choice_idx_map), implies(v in self._fixed_values, self._sel_choice_idx_map[v] in fixed_comb_idx and fixed_comb_idx[self._sel_choice_idx_map[v]] == int(self._fixed_values[v])))',
@@ -221,8 +230,11 @@ CONTRACTS[GP + 'GraphProcessor._update_comb_fixed_mask'] = dict(
     })},
     post_locals=['fixed_choices'],
     # MASK(fixed choices): what the analyzer answers for these fixed choices (uninterpreted)
-    funcs={'MASK': (['Dict[Int,Int]'], 'Ref')},
+    funcs={'MASK': (['Dict[Int,Int]'], 'Ref'), 'MASKOF': (['Dict[Int,Real]', 'List[Int]'], 'Ref')},
     ensures={
+        # the stored mask is the one for the fixed values of *now* (C15: what fix and free leave behind describes
+        # exactly the current restriction, whatever was fixed or freed before)
+        'stored-mask-is-the-mask-of-the-current-fixed-values': ('property', 'self._comb_fixed_mask == MASKOF(self._fixed_values, self._sel_choice_idx_map)'),
         # on every path (also when nothing is fixed any more) the stored mask is the analyzer's answer for the current
         # fixed choices: freeing the last fixed variable resets it
         'stored-mask-is-the-answer-for-the-current-fixed-choices': ('property', 'self._comb_fixed_mask == MASK(final_fixed_choices)'),
@@ -256,7 +268,8 @@ def _domain_update_mask(n):
         gp._comb_fixed_mask = ('mask', 'left over from an earlier fix')
         # the local `fixed_choices` is what a correct run passes to the analyzer: recomputed here from its definition
         expect = {i_dec: int(gp._fixed_values[i_dv]) for i_dv, i_dec in enumerate(idx_map) if i_dv in gp._fixed_values}
-        yield ({'self': gp, 'final_fixed_choices': expect, 'MASK': (lambda d: ('mask', frozenset(d.items())))},
+        yield ({'self': gp, 'final_fixed_choices': expect, 'MASK': (lambda d: ('mask', frozenset(d.items()))),
+                'MASKOF': (lambda fv, m: ('mask', frozenset((m[v], int(x)) for v, x in fv.items() if 0 <= v < len(m))))},
                (lambda gp=gp: GraphProcessor._update_comb_fixed_mask(gp)), {'Int': list(range(-1, 7))},
                f'_update_comb_fixed_mask(idx_map={idx_map}, fixed={gp._fixed_values})')
 
